@@ -34,6 +34,19 @@ func verifScaleBody(requests int) {
 	w := vInit()
 	r0 := []int{1, 2, 3}[verifChooseK("initial.replicas", 3)]
 	prj := vLoaded(r0)
+	// each initial replica either runs until stopped or has already completed (exit 0) when the
+	// scale request arrives
+	completed := map[string]bool{}
+	for nm, pc := range prj.Processes {
+		if pc.Name != "p" {
+			continue
+		}
+		key := "p/" + strconv.Itoa(pc.ReplicaNum)
+		if verifChooseK("completed."+key, 2) == 1 {
+			completed[key] = true
+			w.behav[nm] = &vBehav{codes: []int{0}}
+		}
+	}
 	r := vRunner(prj, false)
 	runDone := make(chan error, 1)
 	go func() { runDone <- r.Run() }()
@@ -99,7 +112,7 @@ func verifScaleBody(requests int) {
 			}
 			verifAssert("config.numbering", info.ReplicaNum == rc.ReplicaNum && info.Replicas == rc.Replicas && info.ReplicaName == nm && info.Name == rc.Name)
 			verifAssert("config.rendered.for.own.replica", info.Command == rc.Command && info.Description == rc.Description)
-			if rc.Name == "p" {
+			if rc.Name == "p" && !completed["p/"+strconv.Itoa(rc.ReplicaNum)] {
 				verifAssert("replica.alive.once", vGet(w.aliveKey, "p/"+strconv.Itoa(rc.ReplicaNum)) == 1)
 			}
 		}
@@ -112,6 +125,8 @@ func verifScaleBody(requests int) {
 			switch {
 			case i < cur && aliveBefore[key] == 1:
 				verifAssert("survivor.not.restarted", is == was && alive == 1)
+			case i < cur && completed[key]:
+				verifAssert("completed.survivor.not.restarted", is == was && alive == 0)
 			case i < cur:
 				verifAssert("added.replica.launched.once", is == was+1 && alive == 1)
 			default:
